@@ -727,13 +727,30 @@ pub fn check_plan(ctx: &mut Ctx, inst: &Instance, out: &DispatchOutcome, nets: &
         if let Some(d) = disps.get(k + 1) {
             let path = d.get("disp_path").and_then(|p| p.as_array()).cloned().unwrap_or_default();
             let est = &nets[k].val;
+            // The same pair of events (e.g. arrive / clear of one link) can occur on several branches of the
+            // train's estimated-time network with slightly different durations (different speed histories), and a
+            // re-route relabels already passed nodes onto the branch the train continues on. The lower bound the
+            // property speaks of is therefore the smallest free-running duration of that event pair on any branch.
+            let ev = |i: usize| (est[i].link_event.est_type as u8, est[i].link_event.link_idx.idx());
+            let mut min_dur: std::collections::HashMap<((u8, usize), (u8, usize)), f64> = std::collections::HashMap::new();
+            for (i, e) in est.iter().enumerate() {
+                let nx = e.idx_next as usize;
+                if nx != 0 && nx < est.len() {
+                    let d = min_dur.entry((ev(i), ev(nx))).or_insert(f64::INFINITY);
+                    *d = d.min(e.time_to_next.value);
+                }
+            }
             for w in path.windows(2) {
                 let (e0, e1) = (w[0].get("est_idx").and_then(|x| x.as_u64()).unwrap_or(0) as usize, w[1].get("est_idx").and_then(|x| x.as_u64()).unwrap_or(0) as usize);
                 let (t0, t1) = (w[0].get("time_pass").and_then(|x| x.as_f64()), w[1].get("time_pass").and_then(|x| x.as_f64()));
                 if let (Some(t0), Some(t1)) = (t0, t1) {
                     obs(ctx, "C05", "obs.legs_checked");
                     if e0 < est.len() && est[e0].idx_next as usize == e1 {
-                        let need = est[e0].time_to_next.value;
+                        let need_branch = est[e0].time_to_next.value;
+                        let need = min_dur.get(&(ev(e0), ev(e1))).copied().unwrap_or(need_branch).min(need_branch);
+                        if need < need_branch - TOL {
+                            obs(ctx, "C05", "obs.legs_judged_against_a_faster_branch_of_the_same_event_pair");
+                        }
                         if t1 - t0 < need - TOL - 1e-9 * need.abs() {
                             bad(ctx, "not_faster_than_free_running", format!("leg between dispatch nodes (est {e0} -> {e1}) takes {} s but free running needs {need} s", t1 - t0));
                         }
